@@ -212,6 +212,8 @@ use crate::vm::{Prog, OPTION_SKIPPED_EMPTY_MATCH};
 pub use crate::error::{CompileError, Error, ParseError, Result, RuntimeError};
 pub use crate::expand::Expander;
 pub use crate::replacer::{NoExpand, Replacer, ReplacerRef};
+#[cfg(feature = "verif-hooks")]
+pub use crate::vm::verif;
 
 const MAX_RECURSION: usize = 64;
 
@@ -284,6 +286,8 @@ impl<'r, 't> Iterator for Matches<'r, 't> {
     /// Adapted from the `regex` crate. Calls `find_from_pos` repeatedly.
     /// Ignores empty matches immediately after a match.
     fn next(&mut self) -> Option<Self::Item> {
+        #[cfg(feature = "verif-hooks")]
+        verif::yield_point(verif::site::ITER_MATCHES);
         if self.last_end > self.text.len() {
             return None;
         }
@@ -360,6 +364,8 @@ impl<'r, 't> Iterator for CaptureMatches<'r, 't> {
     /// Adapted from the `regex` crate. Calls `captures_from_pos` repeatedly.
     /// Ignores empty matches immediately after a match.
     fn next(&mut self) -> Option<Self::Item> {
+        #[cfg(feature = "verif-hooks")]
+        verif::yield_point(verif::site::ITER_CAPTURES);
         if self.0.last_end > self.0.text.len() {
             return None;
         }
@@ -444,6 +450,8 @@ impl<'r, 'h> Iterator for Split<'r, 'h> {
     /// If no more matches are found, returns the remaining part of the string,
     /// or `None` if all substrings have been yielded.
     fn next(&mut self) -> Option<Result<&'h str>> {
+        #[cfg(feature = "verif-hooks")]
+        verif::yield_point(verif::site::ITER_SPLIT);
         match self.matches.next() {
             None => {
                 let len = self.target.len();
@@ -498,6 +506,8 @@ impl<'r, 'h> Iterator for SplitN<'r, 'h> {
     /// Returns `None` if no more matches are found or if the limit is reached after yielding
     /// the remaining part of the target.
     fn next(&mut self) -> Option<Result<&'h str>> {
+        #[cfg(feature = "verif-hooks")]
+        verif::yield_point(verif::site::ITER_SPLITN);
         if self.limit == 0 {
             // Limit reached. No more substrings available.
             return None;
@@ -709,6 +719,8 @@ impl Regex {
     /// assert!(re.is_match("mirror mirror on the wall").unwrap());
     /// ```
     pub fn is_match(&self, text: &str) -> Result<bool> {
+        #[cfg(feature = "verif-hooks")]
+        verif::search_call(verif::site::API_IS_MATCH, 0, 0);
         match &self.inner {
             RegexImpl::Wrap { ref inner, .. } => Ok(inner.is_match(text)),
             RegexImpl::Fancy {
@@ -795,6 +807,8 @@ impl Regex {
         pos: usize,
         option_flags: u32,
     ) -> Result<Option<Match<'t>>> {
+        #[cfg(feature = "verif-hooks")]
+        verif::search_call(verif::site::API_FIND, pos, option_flags);
         match &self.inner {
             RegexImpl::Wrap { inner, .. } => Ok(inner
                 .search(&RaInput::new(text).span(pos..text.len()))
@@ -894,6 +908,8 @@ impl Regex {
     /// of the string slice.
     ///
     pub fn captures_from_pos<'t>(&self, text: &'t str, pos: usize) -> Result<Option<Captures<'t>>> {
+        #[cfg(feature = "verif-hooks")]
+        verif::search_call(verif::site::API_CAPTURES, pos, 0);
         let named_groups = self.named_groups.clone();
         match &self.inner {
             RegexImpl::Wrap { inner, .. } => {
@@ -1102,6 +1118,8 @@ impl Regex {
             let mut new = String::with_capacity(text.len());
             let mut last_match = 0;
             for (i, m) in it {
+                #[cfg(feature = "verif-hooks")]
+                verif::yield_point(verif::site::REPLACE_FAST);
                 let m = m?;
 
                 if limit > 0 && i >= limit {
@@ -1124,6 +1142,8 @@ impl Regex {
         let mut new = String::with_capacity(text.len());
         let mut last_match = 0;
         for (i, cap) in it {
+            #[cfg(feature = "verif-hooks")]
+            verif::yield_point(verif::site::REPLACE_SLOW);
             let cap = cap?;
 
             if limit > 0 && i >= limit {
@@ -1187,6 +1207,28 @@ impl Regex {
             splits: self.split(target),
             limit: limit,
         }
+    }
+}
+
+#[cfg(feature = "verif-hooks")]
+impl Regex {
+    /// Verification hook: `find_from_pos` with explicit VM option flags (bit 1 = an empty match
+    /// was just skipped), i.e. the private search primitive `find_iter` is built on.
+    #[doc(hidden)]
+    pub fn verif_find_with_flags<'t>(
+        &self,
+        text: &'t str,
+        pos: usize,
+        option_flags: u32,
+    ) -> Result<Option<Match<'t>>> {
+        self.find_from_pos_with_option_flags(text, pos, option_flags)
+    }
+
+    /// Verification hook: true when the pattern is run by the backtracking VM, false when it was
+    /// handed to the automata engine as a whole.
+    #[doc(hidden)]
+    pub fn verif_is_fancy(&self) -> bool {
+        matches!(self.inner, RegexImpl::Fancy { .. })
     }
 }
 
